@@ -52,6 +52,11 @@ type op struct {
 	keys    []string
 
 	// context for the history check
+	ctx          context.Context
+	cancel       context.CancelFunc
+	cancelAtSync bool // the client gives up right when the entry becomes durable on the leader (before the commit wait is registered)
+	cancelled    bool
+
 	kmin      int  // entries of the committed log that were acknowledged before the invocation
 	isCurrent bool // the serving node was the most recent leader at invocation
 	harvested bool
@@ -124,7 +129,25 @@ func (g *keyCollector) OnNext(k string) error {
 }
 func (g *keyCollector) OnComplete(err error) { g.done <- err }
 
-// stepClient: w:<node>:<kind>:<key>[:<arg>]  |  r:<node>:<kind>:<key>[:<key2>]
+// stepCancel: the client of an in-flight write (appended on the leader, not answered yet) cancels its context.
+func (c *cluster) stepCancel(id int) bool {
+	if id < 1 || id > len(c.ops) {
+		return false
+	}
+	o := c.ops[id-1]
+	c.mu.Lock()
+	ok := o.isWrite() && o.appended && !o.done && !o.cancelled
+	c.mu.Unlock()
+	if !ok {
+		return false
+	}
+	o.cancelled = true
+	c.event("client cancels the context of %s (in flight at offset %d)", o, o.off)
+	o.cancel()
+	return true
+}
+
+// stepClient: w:<node>:<kind>:<key>[:<arg>]  |  wc:... (the same, context cancelled when the entry is synced)  |  r:<node>:<kind>:<key>[:<key2>]
 func (c *cluster) stepClient(f []string) bool {
 	if len(f) < 4 {
 		return false
@@ -139,7 +162,8 @@ func (c *cluster) stepClient(f []string) bool {
 	if busy {
 		return false // the controller lock is held by BecomeLeader / AddFollower: the call would just block
 	}
-	o := &op{id: len(c.ops) + 1, kind: f[2], key: f[3], node: n.id, invokeStep: c.stepNo, off: -1}
+	o := &op{id: len(c.ops) + 1, kind: f[2], key: f[3], node: n.id, invokeStep: c.stepNo, off: -1, cancelAtSync: f[0] == "wc"}
+	o.ctx, o.cancel = context.WithCancel(context.Background())
 	if len(f) > 4 {
 		if o.kind == "cput" {
 			o.exp = int64(atoi(f[4]))
@@ -195,7 +219,7 @@ func (c *cluster) runOp(n *node, o *op) {
 		err = e
 		return
 	}
-	ctx := context.Background()
+	ctx := o.ctx
 	sh := shardId
 	switch o.kind {
 	case "put", "cput", "del", "delr":
